@@ -119,6 +119,8 @@ class SBytes(object):
         self.conc = conc        # tuple of ints when fully concrete
         self.watch = None       # callable(lo, hi) for reads-clauses
         self.pending = None     # deferred read of the parent range (slices)
+        self.origin = None      # (z3 function, offset): contiguous view of an input byte string
+        self.parts = None       # list of SBytes when built by concatenation
         self.base = base        # name of the uninterpreted function (inputs)
 
     @staticmethod
